@@ -10,7 +10,7 @@ from .. import recon as R
 ID = "C06"
 LEVEL = "proof"
 PROP_FILE = "Properties/C06.v"
-PROOF_FILES = ["Proofs/LabelCostProofs.v", "Proofs/ReconProofs.v", "Proofs/PathFacts.v", "Proofs/SubseqProofs.v",
+PROOF_FILES = ["Proofs/ChargedEdgesProofs.v", "Proofs/LabelCostProofs.v", "Proofs/ReconProofs.v", "Proofs/PathFacts.v", "Proofs/SubseqProofs.v",
                "Model/Recon.v", "Model/Subseq.v", "Base/PathB.v", "Base/Ext.v"]
 TRUSTED = ["model Model/Recon.v of node_event/_cost_rec/_ordered_labeling_cost/_unordered_labeling_cost over bool root paths (C17 ties ancestry to the code, C18 the masks)"]
 ASSUMES = ["binary trees", "infinity.inf adds like an extended integer"]
@@ -19,7 +19,7 @@ RULE = ("cases = (species tree, object tree with leaf species, a species for eve
 OPEN_GOALS: list = []
 TECHNIQUE = "Coq proof (induction on reconciliations; bit/list induction for masks) that the evaluator model equals an explicit recount; model tied to node_event/cost()/labeling_cost() by exhaustive small + random cases"
 LEVEL_TEXT = ("Machine-checked for all trees and cost vectors: the evaluator's cost of a valid reconciliation = unit costs x event counts + full-loss cost x the length of explicit loss lists; "
-              "events classified exactly as the geometric definitions; ordered labelling cost = sloss x lost runs of families (via C18), unordered = sloss x charged lossy edges. "
+              "events classified exactly as the geometric definitions; ordered labelling cost = sloss x lost runs of families (via C18), unordered = sloss x the number of charged lossy edges, proved against a specification written from the event rules (C06_unordered_labeling_charged_edges; C06_unordered_labeling_recount is the definitional unfolding). "
               "Model compared with node_event, reconciliation_cost, labeling_cost, cost on every valid mapping of small inputs, random larger ones, and invalid mappings/labellings.")
 LEVEL_NOTE = ("Trusted: Coq kernel; hand-written model (correspondence = differential testing); C17/C18 for ancestry and masks. No axioms. "
               "The clause about the command-line tool's printed minimum cost is exercised by the C12 check (printed cost == cost() of every parsed solution), not here.")
